@@ -161,7 +161,10 @@ class BodyMixin:
             b = self._get_body_string()
             if not b:
                 return None
-            return json_mod.loads(b)
+            try:
+                return json_mod.loads(b)
+            except ValueError:  # includes JSONDecodeError, UnicodeDecodeError
+                self._raise(BodyParsingError('Invalid JSON'), RequestError)
         return None
 
     @cache_in('environ[ ombott.request.post ]', read_only=True)
@@ -180,7 +183,11 @@ class BodyMixin:
         ctype = self.content_type
         if not ctype.startswith('multipart/'):
             if ctype.startswith('application/json'):
-                post.update(self.json)
+                data = self.json
+                if data is not None:
+                    if not isinstance(data, dict):
+                        self._raise(BodyParsingError('JSON object expected'), RequestError)
+                    post.update(data)
             else:
                 parse_qsl(
                     touni(self._get_body_string(), 'latin1'),
@@ -196,9 +203,21 @@ class BodyMixin:
         if markup is None:
             # should never happen since we check content-type
             # when reading body
-            raise BodyParsingError()
+            self._raise(BodyParsingError('multipart boundary not found'), RequestError)
         elif markup.error is not None:
-            raise markup.error
+            self._raise_parsing_error(markup.error)
+        try:
+            self._collect_multipart(body, markup, post, forms, files)
+        except (RequestError, ValueError, KeyError, RuntimeError) as err:
+            self._raise_parsing_error(err)
+        return post
+
+    def _raise_parsing_error(self, err):
+        if not isinstance(err, RequestError):
+            err = BodyParsingError(f'Malformed multipart/formdata: {err!r}')
+        self._raise(err, RequestError)
+
+    def _collect_multipart(self, body, markup, post, forms, files):
         listified = set()
         for item in FieldStorage.iter_items(body, markup.markups, self.config.max_memfile_size):
             if item.filename:
@@ -220,7 +239,6 @@ class BodyMixin:
                 el.append(it)
             else:
                 post[key] = dct[key] = it
-        return post
 
     @cache_in('environ[ ombott.request.forms ]', read_only=True)
     def forms(self):
